@@ -42,6 +42,7 @@ structure SGroup where
   act : Option DataAct := none
   truncate : Bool := false          -- the peer ends the data stream without a TLS close-notify
   startTls : Bool := false
+  closes : Bool := false            -- the server drops the control connection after this group (X) or sends garbage (G)
   deriving Repr
 
 def parseGroup (s : String) : Option SGroup := do
@@ -49,7 +50,8 @@ def parseGroup (s : String) : Option SGroup := do
   for it in s.splitOn "," do
     if it = "" then continue
     else if it = "T" then g := { g with startTls := true }
-    else if it = "B" || it = "G" || it = "X" then pure ()
+    else if it = "G" || it = "X" then g := { g with closes := true }
+    else if it = "B" then pure ()
     else if it = "E" || it = "P" then g := { g with raws := g.raws ++ [none] }
     else match it.toList with
       | 'r' :: t => let b ← bytesOfHexChars t; g := { g with raws := g.raws ++ [some b] }
